@@ -64,6 +64,11 @@ def intersect_2d_lines(p0, q0, p1, q1):
     a = np.array([lhs0, lhs1])
     b = np.array([rhs0, rhs1])
 
+    if lhs0[0] * lhs1[1] - lhs0[1] * lhs1[0] == 0:
+        # Parallel or collinear lines: the LU factorization inside `solve`
+        # does not reliably produce an exactly zero pivot for these.
+        return None
+
     try:
         return np.linalg.solve(a, b)
     except np.linalg.LinAlgError:
